@@ -407,7 +407,8 @@ def mon_fmv(case) -> tuple[list[Fail], dict]:
         out.append(Fail("fmv-sign", "samples of the wrong sign"))
     if not close(w.integral, area, 1e-9, abs(area)):
         out.append(Fail("window-area", f"integral {w.integral} != {area}"))
-    if N >= 2:
+    # Blackman windows of <= 4 samples are the "odd/even irregularity of very short windows" the property exempts
+    if N >= 2 and not (case["cls"] == "blackman" and N <= 4):
         s1 = arr(cls(N - 1, area, *extra))
         if np.all(np.isfinite(s1)):
             m1 = float(np.max(np.abs(s1)))
